@@ -35,6 +35,7 @@ PCFG = """CONSTANTS
   Params <- P4
   TransformClasses <- TC4
   MaxDepth = {depth}
+  TwoObjects = TRUE
 SPECIFICATION Spec
 {view}
 {invs}
@@ -70,9 +71,11 @@ def bounds_fp(m):
 
 
 def solid_record(m, kind, params, bodies=1, genus=0, flat=None, scale=1.0):
-    # scale: a power of two by which the whole shape was scaled (measures are recorded normalised)
+    # scale: a power of two by which the whole shape was scaled (measures are recorded normalised), or a pair
+    # (volume unit, area unit) for shapes whose dimensions differ by orders of magnitude
+    vnorm, anorm = scale if isinstance(scale, tuple) else (scale ** 3, scale ** 2)
     r = {"rec": "solid", "kind": kind, "params": params, "exc": "", "faces": (np.array(m.faces) + 1).tolist(), "n_vertices": int(len(m.vertices)),
-         "bodies": bodies, "genus": genus, "vol_fp": fp(float(m.volume) / scale ** 3), "area_fp": fp(float(m.area) / scale ** 2), "flat": flat is not None,
+         "bodies": bodies, "genus": genus, "vol_fp": fp(float(m.volume) / vnorm), "area_fp": fp(float(m.area) / anorm), "flat": flat is not None,
          "shell": [[0, 0]], "holes": [], "height": 0, "bkind": "", "bounds_fp": NOB}
     if flat is not None:
         r.update(flat)
@@ -305,19 +308,33 @@ def series_records(tm):
 
 # ------------------------------------------------------------------ primitive histories
 def prim_make(tm, which, params):
+    """params["T"] None: the constructor is called WITHOUT a transform (the class' own default placement)"""
     P = tm.primitives
     res = params.get("res")
+    kw = {} if params.get("T") is None else {"transform": np.array(params["T"], dtype=float).copy()}
     if which == "box":
-        return P.Box(extents=params["dim"], transform=params["T"])
+        return P.Box(extents=params["dim"], **kw)
     if which == "sphere":
-        return P.Sphere(radius=params["dim"][0], transform=params["T"], subdivisions=2 if res is None else res)
+        return P.Sphere(radius=params["dim"][0], subdivisions=2 if res is None else res, **kw)
     if which == "cylinder":
-        return P.Cylinder(radius=params["dim"][0], height=params["dim"][1], transform=params["T"], sections=7 if res is None else res)
+        return P.Cylinder(radius=params["dim"][0], height=params["dim"][1], sections=7 if res is None else res, **kw)
     if which == "capsule":
-        return P.Capsule(radius=params["dim"][0], height=params["dim"][1], transform=params["T"], sections=6 if res is None else res)
+        return P.Capsule(radius=params["dim"][0], height=params["dim"][1], sections=6 if res is None else res, **kw)
     from shapely.geometry import Polygon
     d = 1.0 if res is None else res
-    return P.Extrusion(polygon=Polygon([(0, 0), (params["dim"][0], 0), (params["dim"][0], d), (0, d)]), height=params["dim"][1], transform=params["T"])
+    return P.Extrusion(polygon=Polygon([(0, 0), (params["dim"][0], 0), (params["dim"][0], d), (0, d)]), height=params["dim"][1], **kw)
+
+
+def same_params(a, b):
+    return (np.allclose(a["dim"], b["dim"], atol=1e-12) and np.allclose(a["T"], b["T"], atol=1e-12)
+            and ((a["res"] is None and b["res"] is None) or abs(float(a["res"]) - float(b["res"])) < 1e-12))
+
+
+def same_mesh(p, fresh):
+    a, b = (np.array(p.vertices), np.array(p.faces)), (np.array(fresh.vertices), np.array(fresh.faces))
+    return (a[0].shape == b[0].shape and np.allclose(a[0], b[0], atol=1e-9) and np.array_equal(a[1], b[1])
+            and np.allclose(np.array(p.bounds), np.array(fresh.bounds), atol=1e-9)
+            and abs(float(p.volume) - float(fresh.volume)) <= 1e-9 * max(1.0, abs(float(fresh.volume))))
 
 
 def prim_params(p, which):
@@ -350,10 +367,19 @@ def _small(ms):
 
 
 def replay_prim(tm, which, h, rot):
-    T0 = T4(RZ, (1, 2, 3))
+    # two primitives of the class are built from the same arguments, either with a lattice placement or without
+    # any transform argument (default placement); the second one is a bystander that is only ever read
+    T0 = T4(RZ, (1, 2, 3)) if rot % 2 == 0 else None
     start = {"box": [1.0, 2.0, 3.0], "sphere": [2.0], "cylinder": [1.5, 3.0], "capsule": [1.0, 2.0], "extrusion": [2.0, 1.5]}[which]
+    first = (rot // 2) % 3       # 0: bystander built first, 1: built second, 2: built second and its mesh read at once
+    other = prim_make(tm, which, {"dim": start, "T": T0}) if first == 0 else None
     p = prim_make(tm, which, {"dim": start, "T": T0})
-    steps = []
+    if other is None:
+        other = prim_make(tm, which, {"dim": start, "T": T0})
+    if first == 2:
+        np.array(other.vertices)
+    born = prim_params(other, which)      # parameters of a primitive just built from these arguments
+    steps = ["start " + ("placed" if T0 is not None else "default placement") + "/%d" % first]
     placed = []
     for j, st in enumerate(h):
         op = st["op"]
@@ -424,6 +450,18 @@ def replay_prim(tm, which, h, rot):
         elif op == "copy":
             p = p.copy() if (rot + j) % 2 else __import__("copy").deepcopy(p)
             steps.append("copy")
+        elif op == "read_other":
+            steps.append("read_other")
+            try:
+                now = prim_params(other, which)
+                if not same_params(now, born):
+                    return {"clause": "bystander_parameters_changed", "step": j, "was": str(born["T"][:3, 3]), "now": str(now["T"][:3, 3])}, steps, placed
+                if not same_mesh(other, prim_make(tm, which, born)):
+                    return {"clause": "MeshReflectsParameters", "step": j, "what": "bystander"}, steps, placed
+                if not same_params(prim_params(prim_make(tm, which, {"dim": start, "T": T0}), which), born):
+                    return {"clause": "new_primitive_differs_from_first", "step": j}, steps, placed
+            except BaseException as e:  # noqa
+                return {"clause": "read_raises", "step": j, "exc": type(e).__name__ + ":" + str(e)[:60]}, steps, placed
         elif op == "read":
             fresh = prim_make(tm, which, prim_params(p, which))
             steps.append("read " + st["what"])
@@ -445,6 +483,10 @@ def replay_prim(tm, which, h, rot):
             tv = float(p.to_mesh().volume)
             if not (tv <= float(p.volume) * (1 + 1e-9) and tv >= 0.6 * float(p.volume)):
                 return {"clause": "closed_form_volume_vs_tessellation", "step": j, "closed_form": float(p.volume), "tessellation": tv}, steps, placed
+    # whatever the history was, nothing in it was an edit of the bystander (its parameter version is still 0)
+    now = prim_params(other, which)
+    if not same_params(now, born):
+        return {"clause": "bystander_parameters_changed", "step": len(h), "was": str(born["T"][:3, 3]), "now": str(now["T"][:3, 3])}, steps, placed
     return None, steps, placed
 
 
@@ -507,9 +549,9 @@ def main(argv):
     work = []
     all_hists = []
     emitted = 0
-    for depth, times, cap in ([(4, 1, 9000)] if tier == "quick" else [(4, 3, None), (5, 1, 60000)]):
+    for depth, times, cap in ([(4, 1, 7000)] if tier == "quick" else [(4, 3, None), (5, 1, 60000)]):
         r2 = tlc.must(tlc.run(d, "PrimitiveObject", PCFG.format(depth=depth, view="", invs="INVARIANT EmitLeaf"), workers=1, timeout=1500), "prim-emit")
-        hists = [h for h in r2.printed if any(s["op"] == "read" for s in h)]
+        hists = [h for h in r2.printed if any(s["op"] in ("read", "read_other") for s in h)]
         emitted += len(hists)
         states += r2.distinct
         trans += r2.generated
@@ -524,6 +566,10 @@ def main(argv):
                 work.append((base + hi + t, h, prims[(hi + t * 2 + seed()) % len(prims)]))
     res = pmap(_prim_chunk, work, chunk=60)
     nprim = sum(x[1] for x in res)
+    nother = sum(1 for _, h, _ in work for st in h if st["op"] == "read_other")
+    ndefault = sum(1 for idx, _, _ in work if (idx + seed()) % 2 == 1)
+    if nother < 2000 or ndefault < len(work) // 4:
+        raise MachineryError("too few reads of the bystander primitive / default-placed starts")
     nplaced = 0
     seen = set()
     for x in res:
@@ -558,7 +604,7 @@ def main(argv):
     # coverage guards: every family must really have been exercised
     need = {"extrude2": 150, "sweep_prism2": 80, "sweep_closed": 20, "revolve2": 100, "magnitude": 60, "defaults": 6, "placed": 150, "independent": 16,
             "independent_rebuilt": 16, "segment": 50, "box_inertia": 30, "curved_inertia": 15, "apply_transform": 300, "resolution_Cylinder": 4,
-            "resolution_Sphere": 2, "box_bounds": 4}
+            "resolution_Sphere": 2, "box_bounds": 4, "aspect": 60, "fine_detail": 12}
     for k_, n_ in need.items():
         if bykind.get(k_, 0) < n_:
             raise MachineryError(f"family {k_} nearly empty: {bykind.get(k_, 0)} records (expected >= {n_})")
@@ -566,14 +612,14 @@ def main(argv):
         raise MachineryError("too few apply_transform observations")
     cov = {"states": states, "transitions": trans, "traces_validated_against_impl": len(cases) + nprim,
            "shapes_per_kind": bykind, "primitive_histories_emitted": emitted, "primitive_histories_replayed": nprim,
-           "apply_transform_observations": nplaced, "rejected": len(rejects), "tlc_wall_s": round(wall, 1),
+           "apply_transform_observations": nplaced, "bystander_reads": nother, "histories_from_default_placement": ndefault, "rejected": len(rejects), "tlc_wall_s": round(wall, 1),
            "samples": [meta[len(meta) // 3], meta[-1], all_hists[len(all_hists) // 2]]}
     return V.finish("model_checking", cov, assumptions=[
         "fixed point 1e-4 for measures; inscribed-versus-smooth comparisons allow 5e-3 of float noise",
         "section counts 3..12 (thorough 3..16, 32), subdivisions 0..2, partial revolutions in eighths of a turn",
         "Sphere keeps its tessellation axis aligned (by design, see C04): compared against a fresh Sphere with the same parameters",
         "placement law judged for lattice similarity maps only (signed permutation times 1, 2 or 1/2, integer or half-integer shifts)",
-        "quick replays a seeded sample of 9000 of the depth-4 histories; thorough all of them three times plus 60000 of depth 5",
+        "quick replays a seeded sample of 7000 of the depth-4 histories (two primitives each, half of them built without a transform); thorough all of them three times plus 60000 of depth 5",
     ])
 
 
